@@ -8,7 +8,8 @@
     - [stream_error_returned]: with a bufio.Writer's sticky error, an output stream that accepts
       only n bytes makes the call return an error exactly when the document is longer than n. *)
 From Coq Require Import ZArith List Bool Lia Strings.Byte.
-From YV Require Import Val.Model Tree.Schema Tree.Export Tree.JStr Tree.JsonSpec Tree.JsonSpecProofs Tree.JsonNumProofs Tree.JsonExp Tree.JsonW.
+From YV Require Import Val.Model Tree.Schema Tree.Export Tree.JStr Tree.JsonSpec Tree.JsonSpecProofs Tree.JsonNumProofs
+  Tree.JsonLexProofs Tree.JsonExp Tree.JsonW.
 Import ListNotations.
 Local Open Scope nat_scope.
 
@@ -86,7 +87,7 @@ Section Proofs.
     Notation estart := (estart cfg idmod).
 
     (** *** scalar values *)
-    Lemma witem_spec lmod v e : eitem lmod v = Some e -> witem lmod v = Some (toks_of (conc e)).
+    Lemma witem_spec lmod v e : eitem lmod v = Some e -> witem lmod v = Some (rtoks_of (conc e)).
     Proof.
       destruct v as [[f z|m x|s|s|b|id l|l]| |names|items]; cbn; intros H; try discriminate;
         try (injection H as <-; reflexivity).
@@ -96,7 +97,7 @@ Section Proofs.
     Qed.
 
     Lemma witems_spec lmod : forall items es first, eitems lmod items = Some es ->
-      witems lmod items first = Some (join_from first (map toks_of (map conc es))).
+      witems lmod items first = Some (join_from first (map rtoks_of (map conc es))).
     Proof.
       induction items as [|v tl IH]; intros es first H.
       - cbn in H. injection H as <-. reflexivity.
@@ -106,38 +107,15 @@ Section Proofs.
         reflexivity.
     Qed.
 
-    Lemma wvalue_spec lmod v e : evalue lmod v = Some e -> wvalue lmod v = Some (toks_of (conc e)).
+    Lemma wvalue_spec lmod v e : evalue lmod v = Some e -> wvalue lmod v = Some (rtoks_of (conc e)).
     Proof.
       destruct v as [sv| |names|items]; try (apply witem_spec).
       cbn [JsonExp.evalue JsonW.wvalue]. destruct (eitems lmod items) as [es|] eqn:Hes; [|discriminate].
       cbn. intros H. injection H as <-. rewrite (witems_spec _ _ _ true Hes), join_from_true.
-      cbn [conc]. rewrite toks_of_arr. reflexivity.
+      cbn [conc]. rewrite rtoks_of_arr. reflexivity.
     Qed.
 
-    (** scalars carry neither whitespace nor raw names *)
-    Lemma normalize_toks_of v : normalize (toks_of v) = toks_of v.
-    Proof.
-      induction v using jvalue_ind2; try reflexivity.
-      - destruct b; reflexivity.
-      - rewrite toks_of_arr. change (KLBrack :: ?x ++ [KRBrack]) with ([KLBrack] ++ x ++ [KRBrack]).
-        rewrite !normalize_app. f_equal. f_equal.
-        induction l as [|x tl IH]; [reflexivity|]. inversion H; subst. destruct tl as [|y tl'].
-        + cbn [map join_comma]. assumption.
-        + cbn [map]. rewrite join_comma_cons2. change (?a ++ KComma :: ?b) with (a ++ [KComma] ++ b).
-          rewrite !normalize_app, H2. cbn [map] in IH. rewrite IH by assumption. reflexivity.
-      - rewrite toks_of_obj. change (KLBrace :: ?x ++ [KRBrace]) with ([KLBrace] ++ x ++ [KRBrace]).
-        rewrite !normalize_app. f_equal. f_equal.
-        induction ms as [|x tl IH]; [reflexivity|]. inversion H; subst.
-        assert (Hx : normalize (member_toks x) = member_toks x).
-        { unfold member_toks. change (KStr (fst x) :: KColon :: ?t) with ([KStr (fst x); KColon] ++ t).
-          rewrite normalize_app, H2. reflexivity. }
-        destruct tl as [|y tl'].
-        + cbn [map join_comma]. assumption.
-        + cbn [map]. rewrite join_comma_cons2. change (?a ++ KComma :: ?b) with (a ++ [KComma] ++ b).
-          rewrite !normalize_app, Hx. cbn [map] in IH. rewrite IH by assumption. reflexivity.
-    Qed.
-
-    Lemma normalize_delim lvl first : normalize (delim cfg lvl first) = if first then [] else [KComma].
+    Lemma strip_ws_delim lvl first : strip_ws (delim cfg lvl first) = if first then [] else [KComma].
     Proof. unfold delim. destruct first, (c_pretty cfg); reflexivity. Qed.
 
     (** *** members of a container-like node *)
@@ -145,13 +123,13 @@ Section Proofs.
       (wkid : snode -> dnode -> option (list jtok)) (ekid : snode -> dnode -> option jexp) (k : snode) : Prop :=
       forall dk e, ekid k dk = Some e ->
         exists ts, wkid k dk = Some ts /\
-                   normalize ts = member_toks (member_name (c_qualify cfg) top pmod (smeta k), conc e).
+                   strip_ws ts = rmember_toks (member_name (c_qualify cfg) top pmod (smeta k), conc e).
 
     Lemma wkids_spec top pmod wkid ekid lvl : forall ks cs first ms,
       Forall (kid_rel top pmod wkid ekid) ks ->
       ekids cfg ekid top pmod ks cs = Some ms ->
       exists ts, wkids cfg wkid lvl ks cs first = Some ts /\
-                 normalize ts = join_from first (map member_toks (map conc_m ms)).
+                 strip_ws ts = join_from first (map rmember_toks (map conc_m ms)).
     Proof.
       induction ks as [|k ks IH]; intros cs first ms HF H.
       - destruct cs; [|discriminate]. injection H as <-. exists []. split; reflexivity.
@@ -162,17 +140,17 @@ Section Proofs.
           destruct (IH cs false ms' H2 Hms) as (tr & Hwr & Hnr).
           exists (delim cfg lvl first ++ tk ++ tr). split.
           * cbn [wkids]. rewrite Hwk, Hwr. reflexivity.
-          * rewrite !normalize_app, normalize_delim, Hnk, Hnr. reflexivity.
+          * rewrite !strip_ws_app, strip_ws_delim, Hnk, Hnr. reflexivity.
         + cbn [ekids] in H. inversion HF; subst. apply (IH cs first ms H3 H).
     Qed.
 
     (** *** rows of a list *)
     Lemma wrows_spec wrow erow lvl : forall rs first es,
       Forall (fun r => forall e, erow r = Some e ->
-                exists ts, wrow r = Some ts /\ KLBrace :: normalize ts ++ [KRBrace] = toks_of (conc e)) rs ->
+                exists ts, wrow r = Some ts /\ KLBrace :: strip_ws ts ++ [KRBrace] = rtoks_of (conc e)) rs ->
       erows erow rs = Some es ->
       exists ts, wrows cfg wrow lvl rs first = Some ts /\
-                 normalize ts = join_from first (map toks_of (map conc es)).
+                 strip_ws ts = join_from first (map rtoks_of (map conc es)).
     Proof.
       induction rs as [|r rs IH]; intros first es HF H.
       - injection H as <-. exists []. split; reflexivity.
@@ -182,8 +160,8 @@ Section Proofs.
         destruct (IH false es' H2 eq_refl) as (tr & Hwr & Hnr).
         exists ((delim cfg lvl first ++ [KLBrace]) ++ tk ++ [KRBrace] ++ tr). split.
         + cbn [wrows]. rewrite Hwk, Hwr. reflexivity.
-        + rewrite !normalize_app, normalize_delim, Hnr. cbn [map join_from]. rewrite <- Hnk.
-          change (normalize [KLBrace]) with [KLBrace]. change (normalize [KRBrace]) with [KRBrace].
+        + rewrite !strip_ws_app, strip_ws_delim, Hnr. cbn [map join_from]. rewrite <- Hnk.
+          change (strip_ws [KLBrace]) with [KLBrace]. change (strip_ws [KRBrace]) with [KRBrace].
           rewrite <- app_assoc. apply f_equal. cbn [app]. apply f_equal. rewrite <- app_assoc. reflexivity.
     Qed.
 
@@ -192,8 +170,8 @@ Section Proofs.
       forall lvl top d e, enode top s d = Some e ->
         match s with
         | SLeaf _ _ _ _ => True
-        | SCont _ _ => exists ts, wnode lvl top s d = Some ts /\ KLBrace :: normalize ts ++ [KRBrace] = toks_of (conc e)
-        | SList _ _ _ => exists ts, wnode lvl top s d = Some ts /\ KLBrack :: normalize ts ++ [KRBrack] = toks_of (conc e)
+        | SCont _ _ => exists ts, wnode lvl top s d = Some ts /\ KLBrace :: strip_ws ts ++ [KRBrace] = rtoks_of (conc e)
+        | SList _ _ _ => exists ts, wnode lvl top s d = Some ts /\ KLBrack :: strip_ws ts ++ [KRBrack] = rtoks_of (conc e)
         end.
 
     Lemma wnode_spec : forall s, node_ok s.
@@ -210,17 +188,17 @@ Section Proofs.
           destruct k as [km ty il dflt|km kk|km keys row].
           - destruct dk as [v| |]; try discriminate. cbn [JsonExp.enode] in He.
             unfold JsonW.wleaf. rewrite (wvalue_spec _ _ _ He). eexists. split; [reflexivity|].
-            unfold member_toks. cbn [fst snd smeta].
-            change ([KName ?n; KColon] ++ ?t) with ([KName n; KColon] ++ t). rewrite normalize_app, normalize_toks_of.
+            unfold rmember_toks. cbn [fst snd smeta].
+            change ([KName ?n; KColon] ++ ?t) with ([KName n; KColon] ++ t). rewrite strip_ws_app, strip_ws_rtoks.
             reflexivity.
           - destruct dk as [|c'|]; try discriminate. destruct H as (ts & Hw & Hn). rewrite Hw.
-            eexists. split; [reflexivity|]. unfold member_toks. cbn [fst snd smeta]. rewrite <- Hn.
-            rewrite !normalize_app. reflexivity.
+            eexists. split; [reflexivity|]. unfold rmember_toks. cbn [fst snd smeta]. rewrite <- Hn.
+            rewrite !strip_ws_app. reflexivity.
           - destruct dk as [| |rows']; try discriminate. destruct H as (ts & Hw & Hn). rewrite Hw.
-            eexists. split; [reflexivity|]. unfold member_toks. cbn [fst snd smeta]. rewrite <- Hn.
-            rewrite !normalize_app. reflexivity. }
+            eexists. split; [reflexivity|]. unfold rmember_toks. cbn [fst snd smeta]. rewrite <- Hn.
+            rewrite !strip_ws_app. reflexivity. }
         destruct (wkids_spec top (nm_mod m) wkid _ lvl kids c true ms HF Hms) as (ts & Hw & Hn).
-        exists ts. split; [exact Hw|]. rewrite Hn, join_from_true. cbn [conc]. rewrite toks_of_obj.
+        exists ts. split; [exact Hw|]. rewrite Hn, join_from_true. cbn [conc]. rewrite rtoks_of_obj.
         reflexivity.
       - destruct dd as [v|c|rows]; try discriminate. cbn [JsonExp.enode] in He.
         destruct row as [|rm rkids|]; try discriminate.
@@ -228,39 +206,47 @@ Section Proofs.
         injection He as <-. cbn [JsonW.wnode].
         assert (HF : Forall (fun r => forall e, enode false (SCont rm rkids) r = Some e ->
                         exists ts, wnode (S lvl) false (SCont rm rkids) r = Some ts /\
-                                   KLBrace :: normalize ts ++ [KRBrace] = toks_of (conc e)) rows).
+                                   KLBrace :: strip_ws ts ++ [KRBrace] = rtoks_of (conc e)) rows).
         { apply Forall_forall. intros r _ e He. exact (IHs (S lvl) false r e He). }
         destruct (wrows_spec (fun r => wnode (S lvl) false (SCont rm rkids) r) (fun r => enode false (SCont rm rkids) r) lvl rows true es HF Hes)
           as (ts & Hw & Hn).
-        exists ts. split; [exact Hw|]. rewrite Hn, join_from_true. cbn [conc]. rewrite toks_of_arr. reflexivity.
+        exists ts. split; [exact Hw|]. rewrite Hn, join_from_true. cbn [conc]. rewrite rtoks_of_arr. reflexivity.
     Qed.
 
     (** *** the whole document *)
-    Theorem writer_canonical st e : estart st = Some e ->
-      exists ts, wstart st = Some ts /\ normalize ts = toks_of (conc e).
+    Theorem writer_raw st e : estart st = Some e ->
+      exists ts, wstart st = Some ts /\ strip_ws ts = rtoks_of (conc e).
     Proof.
       destruct st as [top s d | top pmod s d | m v]; cbn [JsonExp.estart JsonW.wstart].
       - destruct s as [|m kids|]; try discriminate. intros He.
         destruct (wnode_spec (SCont m kids) 0 top (visit false (SCont m kids) d) e He) as (ts & Hw & Hn).
-        rewrite Hw. eexists. split; [reflexivity|]. rewrite <- Hn. rewrite !normalize_app. reflexivity.
+        rewrite Hw. eexists. split; [reflexivity|]. rewrite <- Hn. rewrite !strip_ws_app. reflexivity.
       - destruct s as [| |m keys row]; try discriminate.
         destruct (enode false (SList m keys row) (visit true (SList m keys row) d)) as [e'|] eqn:He'; [|discriminate].
         cbn [option_map]. intros H. injection H as <-.
         destruct (wnode_spec (SList m keys row) 0 false _ e' He') as (ts & Hw & Hn).
         rewrite Hw. eexists. split; [reflexivity|].
-        cbn [conc map fst snd]. rewrite toks_of_obj. cbn [map join_comma]. unfold member_toks. cbn [fst snd].
-        rewrite <- Hn. cbn [oapp]. rewrite !normalize_app. cbn [smeta].
-        change (normalize [KLBrace; KName (wname cfg top pmod m); KColon; KLBrack])
-          with [KLBrace; KStr (wname cfg top pmod m); KColon; KLBrack].
-        change (normalize [KRBrack; KRBrace]) with [KRBrack; KRBrace].
+        cbn [conc map fst snd]. rewrite rtoks_of_obj. cbn [map join_comma]. unfold rmember_toks. cbn [fst snd].
+        rewrite <- Hn. cbn [oapp]. rewrite !strip_ws_app. cbn [smeta].
+        change (strip_ws [KLBrace; KName (wname cfg top pmod m); KColon; KLBrack])
+          with [KLBrace; KName (wname cfg top pmod m); KColon; KLBrack].
+        change (strip_ws [KRBrack; KRBrace]) with [KRBrack; KRBrace].
         unfold wname. cbn [app]. rewrite <- app_assoc. reflexivity.
       - destruct v as [v|].
         + destruct (evalue (nm_mod m) v) as [e'|] eqn:He'; [|discriminate]. cbn [option_map]. intros H. injection H as <-.
           unfold JsonW.wleaf. rewrite (wvalue_spec _ _ _ He'). eexists. split; [reflexivity|].
           cbn [oapp]. change (KLBrace :: ?x) with ([KLBrace] ++ x).
-          rewrite !normalize_app, normalize_delim, normalize_toks_of.
-          cbn [conc map fst snd]. rewrite toks_of_obj. reflexivity.
+          rewrite !strip_ws_app, strip_ws_delim, strip_ws_rtoks.
+          cbn [conc map fst snd]. rewrite rtoks_of_obj. reflexivity.
         + intros H. injection H as <-. eexists. split; reflexivity.
+    Qed.
+
+    (** with member names read as strings: the canonical serialisation the grammar is stated on *)
+    Corollary writer_canonical st e : estart st = Some e ->
+      exists ts, wstart st = Some ts /\ normalize ts = toks_of (conc e).
+    Proof.
+      intros He. destruct (writer_raw st e He) as (ts & Hw & Hs). exists ts. split; [exact Hw|].
+      unfold normalize. rewrite Hs. apply norm_rtoks.
     Qed.
   End Cfg.
 
@@ -535,5 +521,57 @@ Section Values.
     - apply wf_toks_of. exact Hnum.
     - apply parse_tokens_toks_of. exact Hnum.
     - apply matches_conc. exact Hok.
+  Qed.
+
+  (** ** down to the bytes *)
+  Fixpoint ekeys_safe (e : jexp) : bool :=
+    match e with
+    | EArr l => forallb ekeys_safe l
+    | EObj ms => forallb (fun kv => forallb html_safe (fst kv) && ekeys_safe (snd kv)) ms
+    | _ => true
+    end.
+
+  Lemma keys_safe_conc : forall e, ekeys_safe e = true -> keys_safe (conc fmt_float e) = true.
+  Proof.
+    apply (jexp_ind2 (fun e => ekeys_safe e = true -> keys_safe (conc fmt_float e) = true)); try (intros; reflexivity).
+    - intros l HF H. cbn [ekeys_safe] in H. cbn [conc keys_safe].
+      revert HF H. induction l as [|x tl IH]; intros HF H; [reflexivity|].
+      apply Forall_cons_iff in HF as [Hp HF']. cbn [forallb] in H. apply andb_true_iff in H as [Hx Ht].
+      cbn [map forallb]. rewrite (Hp Hx). apply IH; assumption.
+    - intros ms HF H. cbn [ekeys_safe] in H. cbn [conc keys_safe].
+      revert HF H. induction ms as [|x tl IH]; intros HF H; [reflexivity|].
+      apply Forall_cons_iff in HF as [Hp HF']. cbn [forallb] in H. apply andb_true_iff in H as [Hx Ht].
+      apply andb_true_iff in Hx as [Hk Hv]. cbn [map forallb fst snd]. rewrite Hk, (Hp Hv). apply IH; assumption.
+  Qed.
+
+  Lemma san_conc : forall e, exp_utf8 e = true -> san_v (conc fmt_float e) = conc fmt_float e.
+  Proof.
+    apply (jexp_ind2 (fun e => exp_utf8 e = true -> san_v (conc fmt_float e) = conc fmt_float e)); try (intros; reflexivity).
+    - intros s H. cbn in *. f_equal. apply (JStrProofs.sanitize_valid (length s)); auto.
+    - intros l HF H. cbn [exp_utf8] in H. cbn [conc san_v]. f_equal.
+      revert HF H. induction l as [|x tl IH]; intros HF H; [reflexivity|].
+      apply Forall_cons_iff in HF as [Hp HF']. cbn [forallb] in H. apply andb_true_iff in H as [Hx Ht].
+      cbn [map]. rewrite (Hp Hx). f_equal. apply IH; assumption.
+    - intros ms HF H. cbn [exp_utf8] in H. cbn [conc san_v]. f_equal.
+      revert HF H. induction ms as [|x tl IH]; intros HF H; [reflexivity|].
+      apply Forall_cons_iff in HF as [Hp HF']. cbn [forallb] in H. apply andb_true_iff in H as [Hx Ht].
+      apply andb_true_iff in Hx as [_ Hv]. cbn [map fst snd]. rewrite (Hp Hv). f_equal. apply IH; assumption.
+  Qed.
+
+  (** THEOREM (bytes): the bytes handed to Out are exactly one RFC 8259 value - they lex (every
+      string literal decoded by the reference decoder, whitespace skipped) and parse to the value
+      tree of the expectation, strings as the decoder reads them; when every string is
+      well-formed UTF-8 that is the tree itself, and it meets the expectation *)
+  Theorem writer_bytes cfg idmod st e :
+    estart cfg idmod st = Some e -> exp_ok e = true -> ekeys_safe e = true ->
+    exists bytes, write_bytes cfg fmt_float idmod st = Some bytes /\
+                  parse_bytes bytes = Some (san_v (conc fmt_float e)) /\
+                  (exp_utf8 e = true -> parse_bytes bytes = Some (conc fmt_float e) /\ matches e (conc fmt_float e) = true).
+  Proof.
+    intros He Hok Hk. destruct (writer_raw fmt_float idmod cfg st e He) as (ts & Hw & Hs).
+    exists (render ts). unfold write_bytes. rewrite Hw. split; [reflexivity|].
+    assert (Hp : parse_bytes (render ts) = Some (san_v (conc fmt_float e))).
+    { apply parse_bytes_render; [exact Hs | apply keys_safe_conc; exact Hk | apply nums_ok_conc; exact Hok]. }
+    split; [exact Hp|]. intros Hu. rewrite Hp, (san_conc e Hu). split; [reflexivity | apply matches_conc; exact Hok].
   Qed.
 End Values.
